@@ -27,6 +27,12 @@ func genC18(seed uint64, tier string) *plan.Plan {
 	p.Cluster.MaxIdleTableMs = Pick(r, 5, 50)
 	p.Cluster.RoutingPushMs, p.Cluster.BalancerMs = 500, 200
 	p.Yield = plan.YieldSpec{}
+	async := p.Cluster.ReplicaCount == 2 && n == 2 && r.Bool(400)
+	if async {
+		// asynchronous replication: the backups are written after Put has returned, i.e. while the
+		// caller is already reusing its buffer
+		p.Cluster.AsyncReplication = true
+	}
 	nkeys := r.Range(3, 12)
 	vn := 0
 	val := func() string {
@@ -66,7 +72,15 @@ func genC18(seed uint64, tier string) *plan.Plan {
 			case x < 70:
 				sc.Ops = append(sc.Ops, ent(plan.Op{K: "del", Key: k}))
 			case x < 80:
-				sc.Ops = append(sc.Ops, ent(plan.Op{K: "snap.putbuf", Key: k, Val: val()}))
+				pb := ent(plan.Op{K: "snap.putbuf", Key: k, Val: val()})
+				if async {
+					pb.Tag = Pick(r, "embo", "embo", "emb")
+				}
+				sc.Ops = append(sc.Ops, pb)
+				if async || r.Bool(300) {
+					// every stored copy holds what was passed to Put, not what the caller wrote into its buffer afterwards
+					sc.Ops = append(sc.Ops, plan.Op{K: "ctl.sleep", Dur: 30}, plan.Op{K: "ctl.copies", Key: k, Tag: "after-putbuf"})
+				}
 			case x < 92:
 				sc.Ops = append(sc.Ops, plan.Op{K: "ctl.sleep", Dur: int64(Pick(r, 2, 30, 300))})
 			default:
@@ -136,9 +150,26 @@ func oracleC18(p *plan.Plan, his []plan.Rec, res *plan.Result) {
 				if strings.Contains(r.Val, "ZZZ") || strings.HasPrefix(r.Val, "Z") {
 					class = "put-buffer-aliased"
 				}
+				if p.Cluster.AsyncReplication && class == "stored-value-changed" {
+					// with asynchronous replication a backup may hold an older value (writes reach it in
+					// either order) and a read after a hand-over may see it: ordering is not this property
+					res.Counters["oracle.async_stale_reads"]++
+					continue
+				}
 				viol(res, class, "via "+r.Op.Tag, "Get(%s) via %s returned err=%q %q, the stored value is %q (after the handed-out bytes were overwritten by the caller)", r.Op.Key, r.Op.Tag, r.Err, short(r.Val), short(want))
-			case !ok && r.Err != plan.ENotFound:
+			case !ok && r.Err != plan.ENotFound && !p.Cluster.AsyncReplication:
 				viol(res, "stored-value-changed", "via "+r.Op.Tag, "Get(%s) returned %q for a deleted key", r.Op.Key, short(r.Val))
+			}
+		case "ctl.copies":
+			if r.Op.Tag == "after-putbuf" && present[r.Op.Key] {
+				for _, c := range r.Copies {
+					// (an older value on a backup is not judged here: with asynchronous replication two
+					// writes may reach a backup in either order; mirroring is C04's subject)
+					if c.Found && c.Val != model[r.Op.Key] && strings.Contains(c.Val, "ZZZ") {
+						class := "put-buffer-aliased"
+						viol(res, class, c.Kind+" copy", "m%d holds %q as %s copy of %s; Put was given %q (the caller overwrote its buffer with 'Z' after Put returned)", c.Member, short(c.Val), c.Kind, r.Op.Key, short(model[r.Op.Key]))
+					}
+				}
 			}
 		case "snap.check":
 			for _, m := range r.Keys {
